@@ -10,7 +10,7 @@ T = "Trusted: Lean 4.33.0 kernel + axioms {propext, Classical.choice, Quot.sound
 PLANNED = {
     "C01": (
         "Lean 4 proof that the move model refines a declarative rules spec + per-position-exhaustive behavioural correspondence with Position.move",
-        "Machine-checked theorems (Props/C01.lean): Impl.move, a line-by-line model of Position.move/_move_place/_move_slide, accepts exactly the moves Rules.Legal allows and returns exactly Rules.result (closed form), for every board size >= 1, every board and every move in Z x Z x type x Option(List Z); crash unreachable; stack order preserved. Tie: every well-formed move of the size plus an ill-formed stream on sampled reachable/constructed positions through both implementation and model, diffed; on divergence the Lean rules predicate is evaluated on the implementation's output. Also run inside cross-operation sessions (one interpreter, every public position operation interleaved on objects of all sizes derived from one another; DESIGN 10.8).",
+        "Machine-checked theorems (Props/C01.lean): Impl.move, a line-by-line model of Position.move/_move_place/_move_slide, accepts exactly the moves Rules.Legal allows and returns exactly Rules.result (closed form), for every board size >= 1, every board and every move in Z x Z x type x Option(List Z); crash unreachable; stack order preserved. Tie: every well-formed move of the size plus an ill-formed stream on sampled reachable/constructed positions through both implementation and model, diffed; on divergence the Lean rules predicate is evaluated on the implementation's output. Also run inside cross-operation sessions (one interpreter, every public position operation interleaved on objects of all sizes derived from one another; DESIGN 10.8). Towers of 17-40 stones, drop counts around powers of two, every slide that runs off the board.",
         T + "CPython list/slice/attrs semantics are modelled, not verified. The tie samples positions (exhaustive over moves per position).",
         "5 C01",
     ),
@@ -22,7 +22,7 @@ PLANNED = {
     ),
     "C03": (
         "Lean 4 proofs about the move generator and table models (completeness w.r.t. Rules.Legal, no duplicates, inclusion) + correspondence of all_moves()/tables with an independent legal-set enumeration",
-        "Theorems (Props/C03.lean): every Rules.Legal move is in the generator's output, the output has no duplicates and is included in the size's table, table entries accepted by the move model are exactly the legal moves (via C01), for all sizes. Tie: all_moves() vs model, and the legal set computed in Lean from the rules over the well-formed universe plus an ill-formed stream vs what Position.move accepts. The search's reach is checked from tactical roots (stacks taller than the board, capstone stacks next to walls); all_moves() is also judged inside cross-operation sessions (DESIGN 10.8).",
+        "Theorems (Props/C03.lean): every Rules.Legal move is in the generator's output, the output has no duplicates and is included in the size's table, table entries accepted by the move model are exactly the legal moves (via C01), for all sizes. Tie: all_moves() vs model, and the legal set computed in Lean from the rules over the well-formed universe plus an ill-formed stream vs what Position.move accepts. The search's reach is checked from tactical roots (stacks taller than the board, capstone stacks next to walls); all_moves() is also judged inside cross-operation sessions (DESIGN 10.8). Perft-style walks over thousands of short-lived positions (temporaries and rebound names); searches ended by the clock; an evaluator that hands out one tensor it keeps: every expanded node carries exactly the legal table moves.",
         T + "positions sampled; move universe exhaustive per position.",
         "5 C03",
     ),
@@ -58,7 +58,7 @@ PLANNED = {
     ),
     "C09": (
         "Lean 4 proofs about the solver-argument assembly and legality of returned moves + capture of the real solver calls at every expanded node",
-        "Theorems (Props/C09.lean): the (prior, q, N, K) handed to the solver are the ones the formula names; unvisited node -> prior; weights of the formula are non-negative for any alpha above max q; every child move of an invariant-satisfying tree is legal. Tie: at every expanded node of the C08 trees the actual solve_policy arguments and result are captured and checked against the model and the C10 contract; returned moves checked legal. PARTIAL: float rounding in q and lambda is observed, not proved. Roots include tactical constructed positions; searches resumed after one evaluator failure; a tree that cannot be dumped still has its returned moves put to the rules.",
+        "Theorems (Props/C09.lean): the (prior, q, N, K) handed to the solver are the ones the formula names; unvisited node -> prior; weights of the formula are non-negative for any alpha above max q; every child move of an invariant-satisfying tree is legal. Tie: at every expanded node of the C08 trees the actual solve_policy arguments and result are captured and checked against the model and the C10 contract; returned moves checked legal. PARTIAL: float rounding in q and lambda is observed, not proved. Roots include tactical constructed positions; searches resumed after one evaluator failure; a tree that cannot be dumped still has its returned moves put to the rules. One engine asked about sibling variations of a game; C changed on the live engine before the distributions are read.",
         T + "floating-point evaluation of q and lambda is outside the proof (partial).",
         "5 C09, 7",
     ),
@@ -76,7 +76,7 @@ PLANNED = {
     ),
     "C12": (
         "Lean 4 proofs about the batch/dedup models + exact comparison with encode_games and dedup_batch on dyadic data",
-        "Theorems (Props/C12.lean): row order and content of encode_games; dense targets; labels; dedup keys in first-occurrence order, means, identity without duplicates, padding-insensitive keys. Tie: transcripts from real and synthetic games (repeats, transpositions, mixed lengths), batches with arbitrary multisets of repeats and pad widths; dyadic targets so sums are exact. Zero-extension key families (token 0 is both EMPTY and padding); Transcript objects encoded, changed in place and encoded again.",
+        "Theorems (Props/C12.lean): row order and content of encode_games; dense targets; labels; dedup keys in first-occurrence order, means, identity without duplicates, padding-insensitive keys. Tie: transcripts from real and synthetic games (repeats, transpositions, mixed lengths), batches with arbitrary multisets of repeats and pad widths; dyadic targets so sums are exact. Zero-extension key families (token 0 is both EMPTY and padding); Transcript objects encoded, changed in place and encoded again. Recorded probabilities that do not sum to one; large dedup batches over hundreds of distinct positions; a duplicate-free batch of 160k rows.",
         T + "torch tensor arithmetic on dyadic values is exact; empty transcripts excluded.",
         "5 C12",
     ),
@@ -106,13 +106,13 @@ PLANNED = {
     ),
     "C17": (
         "Lean 4 proofs about a request-queue/batch-worker transition system for every batching policy + real Server driven on a virtual-time event loop with traces validated against the model",
-        "Theorems (Props/C17.lean): pairing (every delivered response = f(own position)), at-most-once, conservation, FIFO progress bound, byte round-trip of float32 vectors — for all executions and any batch-formation policy. Tie: the real worker_loop/Evaluate under enumerated arrival schedules (bursts around 8 and 80, trickles around 1 ms, latencies), fingerprinting fake model and a real small Transformer; traces validated by the driver. PARTIAL: real gRPC transport, protobuf, executor threads are stubbed/not modelled. Full queues of 90-260-token rows (late-game 7x7/8x8).",
+        "Theorems (Props/C17.lean): pairing (every delivered response = f(own position)), at-most-once, conservation, FIFO progress bound, byte round-trip of float32 vectors — for all executions and any batch-formation policy. Tie: the real worker_loop/Evaluate under enumerated arrival schedules (bursts around 8 and 80, trickles around 1 ms, latencies), fingerprinting fake model and a real small Transformer; traces validated by the driver. PARTIAL: real gRPC transport, protobuf, executor threads are stubbed/not modelled. Full queues of 90-260-token rows (late-game 7x7/8x8). Callers that go away (Model/ServerLeave.lean: leave marks a caller; projection onto the base system, pairing, at-most-once, stayers served, non-interference, progress, quiescence, parked-and-gone never enters): client tasks cancelled while parked / queued / gathered / during the model call, L events in the trace; served models with context lengths 96/100/97 and requests at the limit.",
         T + "asyncio.Queue FIFO semantics and the stubbed transport are trusted (partial).",
         "5 C17, 7",
     ),
     "C18": (
         "Lean 4 proofs about a parent/worker/bounded-queue transition system (conservation, exactness, potential, no silent stall) + real MultiprocessSelfPlayEngine under fault scripts",
-        "Theorems (Props/C18.lean): conservation of games; fault-free completion returns exactly N with nothing carried over; finite progress by a potential; if nothing but polling is enabled some worker is dead with a non-zero code, so the next poll raises; witness of the hang for exit code 0. Tie: the real engine with scripted engine factories, N x W grid, two consecutive requests, faults (factory raises, k-th evaluation raises, SIGKILL), outcome classes vs the model. PARTIAL: death inside a pipe write and OS scheduling are not modelled. Faults include a worker killed inside its engine factory (engine construction is inside the watched bound) and an idle pause between requests with the workers' timed waits compressed 100x.",
+        "Theorems (Props/C18.lean): conservation of games; fault-free completion returns exactly N with nothing carried over; finite progress by a potential; if nothing but polling is enabled some worker is dead with a non-zero code, so the next poll raises; witness of the hang for exit code 0. Tie: the real engine with scripted engine factories, N x W grid, two consecutive requests, faults (factory raises, k-th evaluation raises, SIGKILL), outcome classes vs the model. PARTIAL: death inside a pipe write and OS scheduling are not modelled. Faults include a worker killed inside its engine factory (engine construction is inside the watched bound) and an idle pause between requests with the workers' timed waits compressed 100x; deaths by SIGTERM/SIGHUP/SIGSEGV/SIGABRT; requests of 5000 games; kept transcripts under a lowered descriptor limit.",
         T + "multiprocessing.Queue as a bounded FIFO with blocking put is trusted (partial).",
         "5 C18, 7",
     ),
@@ -124,7 +124,7 @@ PLANNED = {
     ),
     "C20": (
         "Lean 4 proofs that epochs are permutations chunked into aligned batches and that the stream is a function of the seed + exact comparison with the real datasets under recorded permutations",
-        "Theorems (Props/C20.lean): an epoch's batches concatenate to a permutation of the rows; batch sizes; field alignment; merged buffers mask exactly the padding; determinism, fast-forward = consuming, pickle restarts. Tie: real xformer Dataset and ReplayBufferDataset on generated files/buffers with torch.randperm recorded as the oracle; determinism/fast-forward/pickle compared across real instances. C20_interleaved: several live iterators over one dataset object, interleaved with each other and with fast-forwards, each own one epoch of the sequential stream; evaluated by the driver (check-session) on what the real iterators return. Field kinds include integers beyond 2^24/2^53 next to float32/float16 fields.",
+        "Theorems (Props/C20.lean): an epoch's batches concatenate to a permutation of the rows; batch sizes; field alignment; merged buffers mask exactly the padding; determinism, fast-forward = consuming, pickle restarts. Tie: real xformer Dataset and ReplayBufferDataset on generated files/buffers with torch.randperm recorded as the oracle; determinism/fast-forward/pickle compared across real instances. C20_interleaved: several live iterators over one dataset object, interleaved with each other and with fast-forwards, each own one epoch of the sequential stream; evaluated by the driver (check-session) on what the real iterators return. Field kinds include integers beyond 2^24/2^53 next to float32/float16 fields. Iterators abandoned half way (SessOp.close; C20_abandoned_keeps_stream), sessions compared operation by operation with Sess.run; a 72 MB file judged on batch lengths (C20_batch_lengths); the replay window as TrainingRun.train_step builds it, every row given to the model judged by catRowOK.",
         T + "torch.randperm is an oracle (each recorded result is checked to be a permutation); CUDA pinning not covered.",
         "5 C20",
     ),
